@@ -269,6 +269,12 @@ def check_sections(cls, paras):
         got = [t.strip() for _n, t in obs if t.strip()]
         ok = got == want
         want_s = f"the non-empty unit texts are the section bodies in order: {want!r}"
+        if not ok and not want and cls == "DocContent" and len(obs) == 1:
+            # headings only, no body text below any of them: the legacy .doc reader has no section to report and falls back
+            # to one unit holding the whole main text (repair c042a15; before it there was no unit to attach images to)
+            whole = "\n".join(t for _k, t in paras).strip()
+            ok = obs[0][1].strip() == whole
+            want_s += " (or the single fallback unit with the whole main text)"
     if not ok:
         return {"target": f"data_types.py::{cls}.iterate_units", "inputs": inputs, "expected": want_s, "observed": repr(obs), "check": "sections"}
     return None
